@@ -25,6 +25,11 @@ pub fn find_first_excess_utxo(utxos: &HashSet<Utxo>, target: &CanonicalAssets) -
         return None;
     }
 
+    #[cfg(tx3_verif)]
+    crate::verif::push(crate::verif::Event::PruneScan(
+        utxos.iter().map(|x| x.r#ref.clone()).collect(),
+    ));
+
     let available = utxos
         .iter()
         .fold(CanonicalAssets::empty(), |acc, x| acc + x.assets.clone());
